@@ -30,6 +30,10 @@ type c10Case struct {
 	// still a different filter object for the kernel), same-thread-same (the loader itself loaded the same policy
 	// without thread-sync before: the kernel accepts the later synchronisation).
 	PriorKind string `json:"prior_kind,omitempty"`
+	// (PriorKind same-thread-tsync: the loader itself loaded another policy WITH thread-sync before; a later load
+	// without thread-sync must then concern the loader only, and its flag word must not inherit the earlier one.)
+	// LogGroup: the policy also carries a group with the log action (the flag word must not depend on the policy).
+	LogGroup bool `json:"log_group,omitempty"`
 	// EnosysFault: seccomp(2) fails with ENOSYS in the whole process (outer sandbox / old kernel).
 	EnosysFault bool `json:"enosys_fault"`
 }
@@ -48,10 +52,11 @@ func drawC10(t *rapid.T) c10Case {
 	switch rapid.IntRange(0, 8).Draw(t, "fault") {
 	case 0, 8:
 		c.Divergent, c.Strace = true, false
-		c.PriorKind = []string{"other-thread-different", "other-thread-same", "same-thread-same"}[rapid.IntRange(0, 2).Draw(t, "priorKind")]
+		c.PriorKind = []string{"other-thread-different", "other-thread-same", "same-thread-same", "same-thread-tsync", "same-thread-tsync"}[rapid.IntRange(0, 4).Draw(t, "priorKind")]
 	case 1:
 		c.EnosysFault, c.Strace = true, false
 	}
+	c.LogGroup = rapid.IntRange(0, 3).Draw(t, "logGroup") == 0
 	var n int
 	switch k := rapid.IntRange(0, 9).Draw(t, "nClass"); {
 	case k < 4:
@@ -116,22 +121,31 @@ func checkC10(raw json.RawMessage) (ev.Result, error) {
 	case c.Divergent:
 		dp := c10Policy()
 		th := 1
+		pflag := uint32(0)
 		switch c.PriorKind {
 		case "other-thread-same":
 		case "same-thread-same":
 			th = 0
+		case "same-thread-tsync":
+			th, pflag = 0, 1
+			dp.Groups[0].Names = []string{"getuid"}
 		default:
 			dp.Groups[0].Names = []string{"getuid"}
 		}
-		fault = kjob.Step{Op: "load", Thread: th, Filter: &kjob.FilterSpec{Policy: dp, NNP: true, Flag: 0, HostArch: true}}
+		fault = kjob.Step{Op: "load", Thread: th, Filter: &kjob.FilterSpec{Policy: dp, NNP: true, Flag: pflag, HostArch: true}}
 	case c.EnosysFault:
 		fault = kjob.Step{Op: "outer-enosys"}
 	}
+	pol := c10Policy()
+	if c.LogGroup {
+		pol.Groups = append(pol.Groups, spec.Group{Action: actLog, Names: []string{"getgid"}})
+	}
+	priorSynced := c.Divergent && c.PriorKind == "same-thread-tsync"
 	job := &kjob.Job{GOMAXPROCS: c.GOMAXPROCS, Steps: []kjob.Step{
 		{Op: "mkthreads", N: 2},
 		{Op: "states", States: sts},
 		fault,
-		{Op: "load", Thread: 0, Filter: &kjob.FilterSpec{Policy: c10Policy(), NNP: c.NNP, Flag: c.Flag, HostArch: true}},
+		{Op: "load", Thread: 0, Filter: &kjob.FilterSpec{Policy: pol, NNP: c.NNP, Flag: c.Flag, HostArch: true}},
 		{Op: "release", Probes: probes},
 		{Op: "spawn", N: c.SpawnAfter, Probes: probes},
 		{Op: "allstatus"},
@@ -156,8 +170,19 @@ func checkC10(raw json.RawMessage) (ev.Result, error) {
 	ld := le[0]
 	tsync := c.Flag&1 != 0
 	res := ev.Result{Classes: []string{fmt.Sprintf("flag:%d", c.Flag), fmt.Sprintf("gomaxprocs:%d", c.GOMAXPROCS)}}
-	if c.Divergent {
+	if priorSynced {
+		if pl := rr.Find(2, "load"); len(pl) != 1 || !pl[0].Nil {
+			return res, ev.Inconclusivef("the earlier thread-sync load did not succeed")
+		}
+		res.Classes = append(res.Classes, "earlier-load-with-thread-sync-in-the-same-process")
+		if !tsync {
+			res.Classes = append(res.Classes, "load-without-thread-sync-after-one-with")
+		}
+	} else if c.Divergent {
 		res.Classes = append(res.Classes, "fault:another-thread-carries-its-own-filter")
+	}
+	if c.LogGroup {
+		res.Classes = append(res.Classes, "policy-with-log-action")
 	}
 	if c.EnosysFault {
 		if oe := rr.Find(2, "outer-enosys"); len(oe) != 1 || oe[0].Err != "" {
@@ -174,7 +199,13 @@ func checkC10(raw json.RawMessage) (ev.Result, error) {
 		return res, nil
 	}
 	// under the ENOSYS fault every thread already carries the injecting filter: only the probes tell
-	modeOK := func(seccomp, want int) bool { return c.EnosysFault || seccomp == want }
+	// (and after an earlier thread-sync load every thread is in filter mode already)
+	modeOK := func(seccomp, want int) bool {
+		if priorSynced {
+			want = 2
+		}
+		return c.EnosysFault || seccomp == want
+	}
 	// flag word reaches the kernel unmodified
 	nFilter := 0
 	for _, cap := range ld.Captures {
